@@ -4,6 +4,8 @@ import (
 	"fmt"
 	"math/big"
 	"math/bits"
+	"reflect"
+	"strings"
 
 	"github.com/tuneinsight/lattigo/v6/core/rlwe"
 	"github.com/tuneinsight/lattigo/v6/multiparty"
@@ -35,7 +37,7 @@ func (c14) Describe() core.Description {
 		Rule:   "per run: drawn parameters (LogN 4-7, 1-4 Q primes of unequal size, 0-2 P primes), N in 1..8 parties each with its own CRS reader and protocol objects (constructed or ShallowCopy), 1-3 aggregators in a tree, 2-5 concurrent protocol instances drawn from {collective public key, relinearisation key (two rounds), Galois key for a drawn element, generic evaluation key s->s'} each with drawn (LevelQ, LevelP, BaseTwoDecomposition); every share travels over the simulated transport (delay/reordering, duplication, by reference or serialized through a chunked stream), is aggregated in arrival order in a drawn aliasing form, and shares of evk/Galois instances are additionally mis-routed into other instances. Non-trivial = at least one transport fault fired and at least one key oracle evaluated; distinct = distinct choice traces",
 		Real:   []string{"multiparty.PublicKeyGenProtocol / RelinearizationKeyGenProtocol / GaloisKeyGenProtocol / EvaluationKeyGenProtocol (SampleCRP, GenShare*, AggregateShares, Gen*Key, ShallowCopy)", "share serialization", "sampling.KeyedPRNG as CRS", "rlwe.KeyGenerator, Encryptor, Evaluator (ApplyEvaluationKey, Automorphism, Relinearize) using the collective keys", "ring/ringqp arithmetic as oracle substrate"},
 		Stub:   []string{"network (simnet)", "aggregator bookkeeping (who is missing, duplicate suppression, mis-routed share handling)", "orchestrator announcing the instances", "entropy source (deterministic crypto/rand.Reader)"},
-		Assume: []string{"all parties read the CRS with the same sequence of SampleCRP calls (the announced instance order)", "relinearisation-key noise is bounded by the protocol's own hard bound 2*n*N^2*B + N*B (it is inherently not N times the single-party bound)", "the functional key-switch oracle is evaluated only when its hard noise bound is below Q/4 at the ciphertext level (otherwise counted as budget-skipped)", "mis-routing is only injected into protocols whose AggregateShares can return an error (Galois, generic evaluation key)"},
+		Assume: []string{"all parties read the CRS with the same sequence of SampleCRP calls (the announced instance order)", "relinearisation-key noise is bounded by the protocol's own hard bound 3*w*N^2*B + N*B (w: largest 1-norm of a secret, the ring degree or the Hamming weight of sparse secrets) (it is inherently not N times the single-party bound)", "the functional key-switch oracle is evaluated only when its hard noise bound is below Q/4 at the ciphertext level (otherwise counted as budget-skipped)", "mis-routing is only injected into protocols whose AggregateShares can return an error (Galois, generic evaluation key)"},
 	}
 }
 
@@ -527,6 +529,45 @@ func (a *c14Agg) complete(net *simnet.Net, in *c14Inst, round int) {
 	in.done = true
 }
 
+// c14InternalSharing walks x and reports two []uint64 that start at the same address.
+func c14InternalSharing(v reflect.Value, path string, seen map[uintptr]string, depth int) string {
+	if depth > 12 || !v.IsValid() {
+		return ""
+	}
+	switch v.Kind() {
+	case reflect.Ptr, reflect.Interface:
+		if !v.IsNil() {
+			return c14InternalSharing(v.Elem(), path, seen, depth+1)
+		}
+	case reflect.Struct:
+		for i := 0; i < v.NumField(); i++ {
+			if v.Type().Field(i).Name == "Buff" {
+				continue // the backing array that the rows of one polynomial are views of
+			}
+			if w := c14InternalSharing(v.Field(i), path+"."+v.Type().Field(i).Name, seen, depth+1); w != "" {
+				return w
+			}
+		}
+	case reflect.Slice, reflect.Array:
+		if v.Kind() == reflect.Slice && v.Type().Elem().Kind() == reflect.Uint64 {
+			if v.Len() > 0 {
+				a := v.Pointer()
+				if p, ok := seen[a]; ok {
+					return p + " and " + path
+				}
+				seen[a] = path
+			}
+			return ""
+		}
+		for i := 0; i < v.Len(); i++ {
+			if w := c14InternalSharing(v.Index(i), fmt.Sprintf("%s[%d]", path, i), seen, depth+1); w != "" {
+				return w
+			}
+		}
+	}
+	return ""
+}
+
 // --- run ------------------------------------------------------------------------
 
 func (c14) Run(ctx *core.RunCtx) {
@@ -656,6 +697,17 @@ func (c14) Run(ctx *core.RunCtx) {
 				p.protos = newC14Protos(params)
 			}
 			p.crps = sampleCRPs(p.protos)
+			if i == 0 {
+				// the reference polynomials are as many independent reads of the common string as the key has
+				// entries: no two of them are one array
+				for _, c := range p.crps {
+					if w := c14InternalSharing(reflect.ValueOf(c), "", map[uintptr]string{}, 0); w != "" {
+						panicSite = "crp-sharing: " + w
+						return
+					}
+				}
+				ctx.Count("oracle.reference-polynomials-distinct", 1)
+			}
 			// leaf assignment: with several aggregators parties are spread over the non-root ones,
 			// a drawn share of them reports directly to the root (skewed tree)
 			p.leaf = N
@@ -669,6 +721,10 @@ func (c14) Run(ctx *core.RunCtx) {
 	if pk {
 		panicSite = site
 		ctx.Fail("panic", "setup|"+panicSite, "creating parties / sampling CRPs panicked in %s: %s", site, msg)
+		return
+	}
+	if strings.HasPrefix(panicSite, "crp-sharing: ") {
+		ctx.Fail("crp", "SampleCRP|entries-share-storage", "two reference polynomials of one key are the same array (%s): they are one read of the common string, not two", strings.TrimPrefix(panicSite, "crp-sharing: "))
 		return
 	}
 	for _, a := range r.aggs {
@@ -906,6 +962,16 @@ func (r *c14Run) checkKey(in *c14Inst, crps []c14CRPs, s, s2 *rlwe.SecretKey, B 
 			return false
 		}
 	}
+	// what the finalisation is given stays as it was and stays the caller's: the aggregates (they are finalised
+	// again after a retry, for another recipient, or accumulated further), the reference polynomials
+	finIn := []any{in.rootAgg[0]}
+	if in.kind == kRKG {
+		finIn = append(finIn, in.rootAgg[1])
+	}
+	finBefore := make([]uint64, len(finIn))
+	for i, x := range finIn {
+		finBefore[i] = core.NewSweep().FootprintOf(x).Hash
+	}
 	pnk, site, msg := core.Protect(func() {
 		switch in.kind {
 		case kRKG:
@@ -930,19 +996,31 @@ func (r *c14Run) checkKey(in *c14Inst, crps []c14CRPs, s, s2 *rlwe.SecretKey, B 
 		ctx.Fail("protocol", kn+".finalize|error", "generating the key of %s failed: %v", in, err)
 		return false
 	}
+	ctx.Count("oracle.finalisation-inputs-intact", 1)
+	for i, x := range finIn {
+		if core.NewSweep().FootprintOf(x).Hash != finBefore[i] {
+			ctx.Fail("inputs", kn+".finalize|aggregate-modified", "generating the key of %s changed the aggregate of round %d it was given: a second finalisation from the same aggregate gives another key", in, i)
+			return false
+		}
+		if shared, where := sharedBacking(g, x); shared {
+			ctx.Fail("aliasing", kn+".finalize|key-shares-storage-with-the-aggregate", "the key of %s shares storage with the aggregate of round %d it was made from (%s): accumulating into that share object again changes the key", in, i, where)
+			return false
+		}
+	}
 	rq := ringQ.AtLevel(params.MaxLevelQ())
 	switch in.kind {
 	case kRKG:
 		skIn = rq.NewPoly()
 		rq.MulCoeffsMontgomery(s.Value.Q, s.Value.Q, skIn)
 		skOut = s.Value
-		// noise of the two-round protocol: s*e0 + e2 + u*e1, with s and u sums of N secrets of the parameters'
-		// distribution (1-norm at most w each)
+		// noise of the two-round protocol: sum_i s_i*e0 + sum_i e2_i + sum_i (u_i - s_i)*e1, with e0 and e1 sums of
+		// N errors (at most B each) and s_i, u_i secrets of the parameters' distribution (1-norm at most w, that of
+		// a difference at most 2w): 3*w*N^2*B + N*B
 		w := nRing
 		if t, ok := params.Xs().(ring.Ternary); ok && t.H > 0 && int64(t.H) < w {
 			w = int64(t.H)
 		}
-		E = big.NewInt(2*w*N*N*B + N*B)
+		E = big.NewInt(3*w*N*N*B + N*B)
 	case kGKG:
 		skIn = s.Value.Q
 		skOut = params.RingQP().NewPoly()
